@@ -48,6 +48,17 @@ control_connection::control_connection(net_context & net_context)
 
 void control_connection::connect(std::string_view hostname, std::uint16_t port)
 {
+    /* A connection that is still open is abandoned first: once its SSL layer
+     * is removed below nothing must be sent on it any more, whether or not
+     * the new connection can be established.
+     */
+    if (socket_->is_connected())
+    {
+        boost::system::error_code ignored;
+
+        socket_->close(ignored);
+    }
+
     /* Start from a clean state: no bytes of the previous connection and no
      * SSL layer (a connection is plain until the handshake is performed).
      */
